@@ -51,7 +51,8 @@ REQUIRED = [
     "color4_agrees_with_vec3", "hsv2rgb_rgb2hsv", "rgb2hsv_hsv2rgb", "integer_wrappers_scale_by_max",
     "rgb2packed_packed2rgb_exact", "color4_int_alpha_fixed",
     # T-route tie of the colour bodies: regenerated tree (ImathColorAlgo.cpp at double := Sym) = hand model
-    "gen_hsv2rgbV3", "gen_hsv2rgbC4", "gen_rgb2hsvV3", "gen_rgb2hsvC4", "gen_hsv2rgb_rgb2hsv",
+    "gen_hsv2rgbV3", "gen_hsv2rgbC4", "gen_rgb2hsvV3", "gen_rgb2hsvC4", "gen_hsv2rgb_rgb2hsv", "gen_rgb2hsv_hsv2rgb",
+    "gen_color4_agrees_with_vec3",
 ]
 
 INT_MIN, INT_MAX = -2 ** 31, 2 ** 31 - 1
@@ -1829,6 +1830,16 @@ def run(chk):
         chk.sample({"call": "rgb2packed(packed2rgb(0x80ff0a01)) (C4f)", "result": "0x80ff0a01"})
 
     def search(name):
+        if name in ("gen_rgb2hsv_hsv2rgb", "gen_color4_agrees_with_vec3") and symc:
+            # corollaries of the four ties: the failing colour is the one on which a tie fails
+            for base in ("gen_hsv2rgbV3", "gen_rgb2hsvV3", "gen_hsv2rgbC4", "gen_rgb2hsvC4"):
+                rep = colour_link_search(chk, symc, base)
+                if rep:
+                    rep["theorem"] = name
+                    rep["via"] = base
+                    rep["key"] = "theorem:%s" % name
+                    return rep
+            return None
         if name in COLOUR_LINK:
             return colour_link_search(chk, symc, name) if symc else None
         if name.startswith("gen_") and sym:
